@@ -246,6 +246,15 @@ def check(ctx):
             back, _ = terms.function_term(P, fi, {"prev_data": r[0], "next_data": r[1]})
             ok = back is not None and nf.equal(back, nf.sym("sample"))
         ctx.ob("C02.e", f"insert with {ex} then select with {ip} at the same time returns the sample", ok, "algebraic identity", fi.where)
+    # default offsets: select reads relative to the latest observation (offset 1), insert relative to the write position (offset 0)
+    def kwdefault(f, name):
+        a = f.node.args
+        d = dict(zip([x.arg for x in a.kwonlyargs], a.kw_defaults))
+        d.update(dict(zip([x.arg for x in a.args][-len(a.defaults):] if a.defaults else [], a.defaults)))
+        v = d.get(name)
+        return v.value if isinstance(v, ast.Constant) else None
+    ctx.ob("C02.a", "RecordTensor.select: time 0 is the latest observation (default offset 1)", kwdefault(sel, "offset") == 1, f"default {kwdefault(sel, 'offset')}", sel.where)
+    ctx.ob("C02.a", "RecordTensor.insert: time 0 is the slot about to be written (default offset 0)", kwdefault(ins, "offset") == 0, f"default {kwdefault(ins, 'offset')}", ins.where)
     # defaults are a matching pair
     d1 = [n for n in walk_own(sel.node) if isinstance(n, ast.Assign) and isinstance(n.targets[0], ast.Name) and n.targets[0].id == "interp"]
     d2 = [n for n in walk_own(ins.node) if isinstance(n, ast.Assign) and isinstance(n.targets[0], ast.Name) and n.targets[0].id == "extrap"]
